@@ -565,6 +565,7 @@ type State struct {
 	// allocated before the loop was entered (id < freshBound)
 	freshBound Term
 	oldWrites  map[string]bool
+	oldTargets map[string][]Term
 	// sJoin
 	preds  []*State
 	guards []Term
@@ -610,6 +611,13 @@ func (s *State) get(name string) Term {
 		switch {
 		case name == "alloc" || name == "calls":
 			fv.assumeAtBlk(s.blk, s.guard, app(">=", t, old))
+		case strings.HasPrefix(srt, "(Array Int") && s.freshBound != "" && !s.havocAll && s.oldWrites[name] && s.oldTargets != nil && s.oldTargets[name] != nil:
+			// pre-existing memory is written only through the known roots
+			conds := []Term{app("<", "a", s.freshBound)}
+			for _, t := range s.oldTargets[name] {
+				conds = append(conds, not(eq("a", t)))
+			}
+			fv.assumeAtBlk(s.blk, s.guard, fmt.Sprintf("(forall ((a Int)) (! (=> %s (= (select %s a) (select %s a))) :pattern ((select %s a))))", and(conds...), t, old, t))
 		case strings.HasPrefix(srt, "(Array Int") && s.freshBound != "" && !s.havocAll && !s.oldWrites[name]:
 			fv.assumeAtBlk(s.blk, s.guard, fmt.Sprintf("(forall ((a Int)) (! (=> (< a %s) (= (select %s a) (select %s a))) :pattern ((select %s a))))", s.freshBound, t, old, t))
 		case strings.HasPrefix(srt, "(Array Int"):
